@@ -786,8 +786,11 @@ class Channel:
                 error.warn()
         elif self._receiveclosed.is_set():
             # state transition "sendonly" --> "deleted"
-            # the remote channel is already in "deleted" state, nothing to do
-            pass
+            # the remote channel is already in "deleted" state, but it may
+            # still have a callback registered that waits for its endmarker
+            if Message is not None and not self.gateway._channelfactory.finished:
+                with suppress(OSError, ValueError):
+                    self.gateway._send(Message.CHANNEL_CLOSE, self.id)
         else:
             # state transition "opened" --> "deleted"
             # check if we are in the middle of interpreter shutdown
@@ -867,13 +870,23 @@ class Channel:
             # but it's never damaging to send too many CHANNEL_CLOSE messages
             # however, if the other side triggered a close already, we
             # do not send back a closed message.
-            if not self._receiveclosed.is_set():
-                put = self.gateway._send
+            put = self.gateway._send
+
+            def send_close() -> None:
                 if error is not None:
                     put(Message.CHANNEL_CLOSE_ERROR, self.id, dumps_internal(error))
                 else:
                     put(Message.CHANNEL_CLOSE, self.id)
                 self._trace("sent channel close message")
+
+            if not self._receiveclosed.is_set():
+                send_close()
+            elif not self.gateway._channelfactory.finished:
+                # "sendonly": the other side dropped its channel object but
+                # may still have a callback registered, which is released
+                # (and given its endmarker) only by a close message.
+                with suppress(OSError):
+                    send_close()
             if isinstance(error, RemoteError):
                 self._remoteerrors.append(error)
             self._closed = True  # --> "closed"
